@@ -18,7 +18,9 @@ type RectJ struct {
 }
 
 func (r RectJ) rect() c2.Rect64 { return c2.NewRect64(r.L, r.T, r.R, r.B) }
-func (r RectJ) path() Path      { return Path{{X: r.L, Y: r.T}, {X: r.R, Y: r.T}, {X: r.R, Y: r.B}, {X: r.L, Y: r.B}} }
+func (r RectJ) path() Path {
+	return Path{{X: r.L, Y: r.T}, {X: r.R, Y: r.T}, {X: r.R, Y: r.B}, {X: r.L, Y: r.B}}
+}
 func (r RectJ) contains(p P) bool {
 	return p.X >= r.L && p.X <= r.R && p.Y >= r.T && p.Y <= r.B
 }
